@@ -8,7 +8,7 @@ from ..engines import uijson
 class C15(Check):
     pid = "C15"
     level = "exploration"
-    budgets = {"quick": (220, 16), "thorough": (3600, 16)}
+    budgets = {"quick": (180, 16), "thorough": (2800, 16)}
     ops_key = "calls"
     exhaustive_note = (
         "switch table: form kind {float, choice} x optional {absent,T,F} x enabled {absent,T,F} x group "
